@@ -106,6 +106,15 @@ func Load(dir string, overlay map[string][]byte, tags string) (*Prog, error) {
 			case *ssa.Function:
 				add(m)
 			case *ssa.Type:
+				// methods declared on the named type, including methods of generic types (whose
+				// uninstantiated method sets are empty)
+				if named, ok := m.Type().(*types.Named); ok {
+					for i := 0; i < named.NumMethods(); i++ {
+						if fn := prog.FuncValue(named.Method(i)); fn != nil {
+							add(fn)
+						}
+					}
+				}
 				for _, t := range []types.Type{m.Type(), types.NewPointer(m.Type())} {
 					ms := prog.MethodSets.MethodSet(t)
 					for i := 0; i < ms.Len(); i++ {
@@ -184,6 +193,15 @@ func (p *Prog) Func(rel, recv, name string) *ssa.Function {
 	tm, ok := sp.Members[recv].(*ssa.Type)
 	if !ok {
 		return nil
+	}
+	if named, ok := tm.Type().(*types.Named); ok {
+		for i := 0; i < named.NumMethods(); i++ {
+			if named.Method(i).Name() == name {
+				if fn := p.SSA.FuncValue(named.Method(i)); fn != nil {
+					return fn
+				}
+			}
+		}
 	}
 	for _, t := range []types.Type{types.NewPointer(tm.Type()), tm.Type()} {
 		sel := p.SSA.MethodSets.MethodSet(t).Lookup(sp.Pkg, name)
